@@ -113,7 +113,7 @@ def check_case(case, acc):
         for ii, inst in enumerate(insts):
             if pres[ii][k]:
                 p, yaw = POSE[inst][k]
-                anns.append(dict(inst=inst, cat=cats[ii], pos=p, yaw=yaw, size=(1.5 + ii, 4.0 - ii, 1.2 + 0.1 * k), npts=3 + k + 10 * ii,
+                anns.append(dict(inst=inst, cat=cats[ii], pos=p, yaw=yaw, size=(1.5 + ii, 4.0 - ii, 1.2 + 0.1 * k), npts=3 + k + 10 * ii, radar=(2 + ii + k) if case["variant"] else 0,
                                  vis=levels[(k + ii) % 4], attrs=["vehicle_state.moving"] if (case["variant"] and ii == 0) else []))
         ego = egos[k % len(egos)]
         if case.get("tilt"):
